@@ -39,6 +39,8 @@ pub fn rich_schema() -> Schema {
     let nf = TextOptions::default().set_indexing_options(
         TextFieldIndexing::default().set_tokenizer("default").set_index_option(IndexRecordOption::WithFreqs).set_fieldnorms(false));
     sb.add_text_field("nf", nf);
+    // longer texts over 8 words with skewed frequencies: conjunctions / unions of 4..6 terms have many matches (block-WAND paths of C06)
+    sb.add_text_field("body", TEXT);
     sb.build()
 }
 
@@ -69,6 +71,10 @@ pub fn to_doc(schema: &Schema, d: &Value) -> TantivyDocument {
         let toks: Vec<String> = t.iter().map(|x| x.as_str().unwrap().to_string()).collect();
         doc.add_text(f("title"), toks.join(" "));
         doc.add_text(f("nf"), toks.join(" "));
+    }
+    if let Some(t) = d.get("body").and_then(|x| x.as_array()) {
+        let toks: Vec<String> = t.iter().map(|x| x.as_str().unwrap().to_string()).collect();
+        doc.add_text(f("body"), toks.join(" "));
     }
     if let Some(t) = d.get("tag").and_then(|x| x.as_array()) {
         for w in t {
@@ -167,6 +173,14 @@ pub fn gen_corpus(rng: &mut StdRng, n: usize, dense_all: bool) -> Vec<Value> {
         // few distinct values: massive ties for the sort keys of C06
         m.insert("pop".into(), if rng.random_bool(0.8) { json!([rng.random_range(-2..4)]) } else { json!([]) });
         m.insert("cat".into(), if rng.random_bool(0.8) { json!([gen_word(rng)]) } else { json!([]) });
+        // body: few length classes (ties through equal fieldnorms), skewed term frequencies, most of the 8 words in most documents
+        let blen = *[6usize, 10, 10, 16, 16, 24].choose(rng).unwrap();
+        let body: Vec<String> = (0..blen).map(|_| {
+            let mut i = 0;
+            while i < 7 && rng.random_bool(0.62) { i += 1; }
+            format!("b{i}")
+        }).collect();
+        m.insert("body".into(), json!(body));
         docs.push(d);
     }
     docs
@@ -382,6 +396,16 @@ pub fn leaves(q: &Value) -> usize {
     }
 }
 
+/// VERIF_UNSTEER=F37,F39 in the environment switches the steering around the named recorded findings off
+/// (to test a candidate repair with tools/with_patch.sh)
+pub fn unsteered(f: &str) -> bool {
+    // F37 and F39 are repaired in /repo (fix commits): their classes are explored by default
+    if f == "F37" || f == "F39" {
+        return true;
+    }
+    std::env::var("VERIF_UNSTEER").map(|v| v.to_uppercase().split(',').any(|x| x.trim() == f)).unwrap_or(false)
+}
+
 pub struct GenOpts {
     pub depth: u32,
     pub leaf_kinds: Vec<&'static str>,
@@ -464,8 +488,9 @@ pub fn gen_leaf(rng: &mut StdRng, o: &GenOpts) -> Value {
             // negative non-integer upper bound are rounded toward zero - those two classes are left to the dedicated sub-run
             let lo_h = rng.random_range(-14..62i64);
             let hi_h = lo_h + rng.random_range(-2..20i64);
-            let lo_h = if lo_h > 0 && lo_h % 2 != 0 { lo_h + 1 } else { lo_h };
-            let hi_h = if hi_h < 0 && hi_h % 2 != 0 { hi_h - 1 } else { hi_h };
+            let steer = !unsteered("F37");
+            let lo_h = if steer && lo_h > 0 && lo_h % 2 != 0 { lo_h + 1 } else { lo_h };
+            let hi_h = if steer && hi_h < 0 && hi_h % 2 != 0 { hi_h - 1 } else { hi_h };
             let mut lo = match rng.random_range(0..5) { 0 | 1 => json!({"b":"in","h":lo_h}), 2 | 3 => json!({"b":"ex","h":lo_h}), _ => json!({"b":"un"}) };
             let hi = match rng.random_range(0..5) { 0 | 1 => json!({"b":"in","h":hi_h}), 2 | 3 => json!({"b":"ex","h":hi_h}), _ => json!({"b":"un"}) };
             if lo["b"] == "un" && hi["b"] == "un" {
@@ -502,7 +527,7 @@ pub fn gen_leaf(rng: &mut StdRng, o: &GenOpts) -> Value {
                     let hi = lo + rng.random_range(0..6);
                     let mut q = range_json(rng, "ip", json!(lo), json!(hi));
                     // recorded finding: the upper bound Excluded(::) underflows (matches every address): left to the dedicated sub-run
-                    if q["hi"]["b"] == "ex" && q["hi"]["v"] == 0 {
+                    if !unsteered("F39") && q["hi"]["b"] == "ex" && q["hi"]["v"] == 0 {
                         q["hi"]["b"] = json!("in");
                     }
                     q
